@@ -91,6 +91,7 @@ class Attached(O.Session):
         self.mode = "rw"
         self.caches = {"A": {}, "B": {}}
         self.idmap = {}
+        self.twin = None
 
 
 def expand_state(prop, case, r, cfg, post=None, reopen_modes=("ro", "rw"), pre=None):
